@@ -1,0 +1,19 @@
+//go:build verif
+
+// Contracts for package highlight, checked by /verif/bin/govc (comment-only file).
+package highlight
+
+//@ fileprops C20
+
+// A term location is usable for a text of n bytes when 0 <= Start <= End <= n.
+
+//@ func TermLocation.Overlaps
+//@   nopanic
+//@   pure
+//@   requires other != nil
+//@   ensures result <==> ((other.Start >= tl.Start && other.Start < tl.End) || (tl.Start >= other.Start && tl.Start < other.End))
+
+//@ func SimpleFragmenter.Fragment
+//@   nopanic
+//@   infer
+//@   requires forall i int :: 0 <= i && i < len(ot) ==> (ot[i] != nil && 0 <= ot[i].Start && ot[i].Start <= ot[i].End && ot[i].End <= len(orig))
